@@ -13,7 +13,7 @@ From Coq Require Import Reals List Arith ZArith Bool.
 From Compute Require Import Base.Ops Base.ListMat Model.Reduce Model.MatMul Model.SolveInst.
 From Coq Require Import Permutation.
 From Compute Require Import Generated.glm_families Model.GLM Spec.GLM Proofs.C06_base Proofs.C06 Proofs.C06_infer Proofs.C06_perm
-  Proofs.C06_compose.
+  Proofs.C06_compose Proofs.C06_weighted Proofs.C06_replicate.
 From Compute Require Spec.Factor Spec.Solve.
 Import ListNotations.
 Open Scope R_scope.
@@ -116,7 +116,13 @@ Theorem C06_fit_loop_spec :
 Proof. exact @fit_loop_spec. Qed.
 
 (** [fit] = Ok  =>  the relative change of the penalised deviance between the last two iterations is below
-    the tolerance, and the stored deviance is the family deviance at the means the last step started from *)
+    the tolerance, and the stored deviance is the (weighted) deviance at the means the last step started from.
+    RESTATED for the repaired code (fix 877a7e1): the last conjunct used to read
+    [deviance RO f y (q_mu q) = Some (f_dev ft)], the UNWEIGHTED deviance of a possibly weighted fit, which was the
+    recorded defect; it now names [weighted_deviance] at the fit's weights (= the family's deviance when there are no
+    weights: C06_unit_weights_deviance_unchanged; = sum_i w_i d(y_i, mu_i): C06_weighted_deviance_formula).  The
+    penalised deviances [pd'], [lp] compared by the test are those of [step], now weighted too
+    (C06_step_penalised_deviance_weighted). *)
 Theorem C06_ok_implies_converged :
   forall (solve : list R -> list R -> option (list R)) (f : family) (alpha tol : R) (w off : option (list R))
          (x y : list R) (max_iter : nat) (ft : fitted),
@@ -126,7 +132,7 @@ Theorem C06_ok_implies_converged :
       run RO solve f alpha tol x y (length y) p (weights_of RO w (length y)) off k (initial_coef RO y p) None = Some (c, Some lp) /\
       step RO solve f alpha tol x y (length y) p (weights_of RO w (length y)) off c (Some lp) = Some (f_coef ft, pd', true, q) /\
       Rabs (pd' - lp) / lp < tol /\
-      deviance RO f y (q_mu q) = Some (f_dev ft).
+      weighted_deviance RO f y (q_mu q) (weights_of RO w (length y)) = Some (f_dev ft).
 Proof. exact fit_ok_implies_converged. Qed.
 
 (** [fit] = Err  =>  all [max(1, max_iter)] iterations were executed and the criterion failed at the last one *)
@@ -148,7 +154,9 @@ Theorem C06_small_budget_is_err :
     (max_iter <= 1)%nat -> fit O solve f alpha tol w off x y max_iter = Some ft -> f_ok ft = false.
 Proof. exact @fit_small_budget_is_err. Qed.
 
-(** what [fit] stores (any carrier) *)
+(** what [fit] stores (any carrier).  RESTATED for the repaired code (fix 877a7e1): the deviance conjunct used to
+    read [deviance O f y (q_mu q) = Some (f_dev ft)] (unweighted: the recorded defect); it is now the weighted
+    deviance at the fit's weights.  The stored n is pinned in C06_fit_stores_n. *)
 Theorem C06_fit_stores :
   forall (T : Type) (O : Ops T) (solve : list T -> list T -> option (list T)) (f : family) (alpha tol : T)
          (w off : option (list T)) (x y : list T) (max_iter : nat) (ft : fitted),
@@ -159,7 +167,7 @@ Theorem C06_fit_stores :
       length (weights_of O w (length y)) = length y /\
       fit_loop O solve f alpha tol x y (length y) p (weights_of O w (length y)) off (max_iter - 1)
                (initial_coef O y p) None = Some (f_ok ft, f_coef ft, q) /\
-      deviance O f y (q_mu q) = Some (f_dev ft) /\
+      weighted_deviance O f y (q_mu q) (weights_of O w (length y)) = Some (f_dev ft) /\
       compute_ddbeta O x (q_dmu q) (q_var q) (weights_of O w (length y)) = Some (f_info ft) /\
       f_p ft = p.
 Proof. exact @fit_inv. Qed.
@@ -362,3 +370,181 @@ Theorem C06_example_composed :
     bigsum (fun l => nth (i * 1 + l) c 0 * penalised_fisher Gaussian [1; 1; 1] 3 1 [1; 1; 1] (offs None) 0 [0] l j) 1
     = if (i =? j)%nat then 1 else 0.
 Proof. exact info_nonsingular_instance. Qed.
+
+(** ** prior weights: the deviance of a weighted fit (the repaired code, fix 877a7e1).
+    [GLM::weighted_deviance] = sum_i w_i * d_i where the unit deviance d_i is obtained through the existing
+    [ExponentialFamily::deviance] on the single observation i; unit weights take the family's deviance of the whole
+    sample.  Proofs in Proofs/C06_weighted.v. *)
+
+(** the model's unit deviance IS the family's deviance of one observation (any carrier, hence on binary64) *)
+Theorem C06_unit_deviance_is_deviance_of_one_observation :
+  forall (T : Type) (O : Ops T) (f : family) (yi mi : T), deviance O f [yi] [mi] = Some (unit_dev O f yi mi).
+Proof. exact @unit_dev_singleton. Qed.
+
+(** every family arm is additive over the observations, so the route through single observations is exact:
+    deviance(y, mu) = sum_i deviance([y_i], [mu_i])  (no domain condition: the code's own summands) *)
+Theorem C06_deviance_additive_over_observations :
+  forall (f : family) (y mu : list R),
+    length y = length mu ->
+    deviance RO f y mu = Some (bigsum (fun i => unit_dev RO f (nth i y 0) (nth i mu 0)) (length y)).
+Proof. exact deviance_additive. Qed.
+
+(** the code's unit deviance is the textbook unit deviance d(y, mu) *)
+Theorem C06_unit_deviance_formula :
+  forall (f : family) (yi mi : R),
+    (f = Poisson \/ f = QuasiPoisson -> yi = 0 \/ (0 < yi /\ 0 < mi)) ->
+    unit_dev RO f yi mi = unit_deviance f yi mi.
+Proof. exact unit_dev_R. Qed.
+
+(** the weighted deviance is sum_i w_i d(y_i, mu_i), whatever branch the code took (unit weights or not) *)
+Theorem C06_weighted_deviance_formula :
+  forall (f : family) (y mu w : list R) (d : R),
+    weighted_deviance RO f y mu w = Some d -> length w = length y ->
+    (f = Poisson \/ f = QuasiPoisson ->
+       forall i, (i < length y)%nat -> nth i y 0 = 0 \/ (0 < nth i y 0 /\ 0 < nth i mu 0)) ->
+    d = bigsum (fun i => nth i w 0 * unit_deviance f (nth i y 0) (nth i mu 0)) (length y).
+Proof. exact weighted_deviance_formula. Qed.
+
+(** acceptance half: it returns on data of matching lengths *)
+Theorem C06_weighted_deviance_total :
+  forall (f : family) (y mu w : list R),
+    length mu = length y -> length w = length y -> exists d, weighted_deviance RO f y mu w = Some d.
+Proof. exact weighted_deviance_total. Qed.
+
+(** without weights ([fit] uses a vector of ones) or with explicit unit weights, the deviance and the penalised
+    deviance are the family's own, by the same call as before the fix (any carrier on which 1 == 1, in particular
+    binary64: the unweighted path is unchanged bit for bit) *)
+Theorem C06_unit_weights_deviance_unchanged :
+  forall (T : Type) (O : Ops T) (f : family) (y mu : list T) (n : nat) (alpha : T) (coef : list T),
+    eqb O (one O) (one O) = true ->
+    weighted_deviance O f y mu (repeat (one O) n) = deviance O f y mu /\
+    weighted_penalized_deviance O f y mu (repeat (one O) n) alpha coef = penalized_deviance O f y mu alpha coef.
+Proof.
+  intros T O f y mu n alpha coef E. split.
+  - exact (weighted_deviance_unweighted O f y mu n E).
+  - exact (weighted_penalized_deviance_unweighted O f y mu n alpha coef E).
+Qed.
+
+(** the hypothesis holds on binary64 (any libm table) and on the reals *)
+Theorem C06_one_eq_one_binary64 : forall tbl, eqb (FO tbl) (one (FO tbl)) (one (FO tbl)) = true.
+Proof. exact one_eqb_one_FO. Qed.
+Theorem C06_one_eq_one_R : eqb RO (one RO) (one RO) = true.
+Proof. exact one_eqb_one_RO. Qed.
+
+(** explicit unit weights are the same fit as no weights (any carrier) *)
+Theorem C06_unit_weights_same_fit_as_none :
+  forall (T : Type) (O : Ops T) (solve : list T -> list T -> option (list T)) (f : family) (alpha tol : T)
+         (off : option (list T)) (x y : list T) (max_iter : nat),
+    fit O solve f alpha tol (Some (repeat (one O) (length y))) off x y max_iter
+    = fit O solve f alpha tol None off x y max_iter.
+Proof. exact @unit_weights_same_fit. Qed.
+
+(** the penalised deviance used by the stopping rule: weighted deviance + alpha sum_{j>=1} beta_j^2 *)
+Theorem C06_weighted_penalized_deviance_formula :
+  forall (f : family) (y mu w : list R) (alpha b0 : R) (beta : list R) (d : R),
+    weighted_penalized_deviance RO f y mu w alpha (b0 :: beta) = Some d ->
+    exists dv, weighted_deviance RO f y mu w = Some dv /\
+               d = dv + alpha * bigsum (fun j => nth j beta 0 * nth j beta 0) (length beta).
+Proof. exact weighted_penalized_deviance_formula. Qed.
+
+(** one pass of the loop body (any inner solver): the value [pd] the stopping rule compares is the WEIGHTED deviance
+    at the means the step started from plus the ridge penalty at the new coefficients *)
+Theorem C06_step_penalised_deviance_weighted :
+  forall (solve : list R -> list R -> option (list R)) (f : family) (alpha tol : R) (x y : list R) (n p : nat)
+         (w : list R) (off : option (list R)) (beta : list R) (pdev : option R) (beta' : list R) (pd : R)
+         (conv : bool) (q : quantities),
+    step RO solve f alpha tol x y n p w off beta pdev = Some (beta', pd, conv, q) ->
+    length (q_mu q) = length y /\
+    exists dv b0 rest,
+      beta' = b0 :: rest /\ weighted_deviance RO f y (q_mu q) w = Some dv /\
+      pd = dv + alpha * bigsum (fun j => nth j rest 0 * nth j rest 0) (length rest).
+Proof. exact step_penalised_deviance. Qed.
+
+(** the stored n = round(sum of the weights) clamped at 0 ([as usize]) (any carrier) *)
+Theorem C06_fit_stores_n :
+  forall (T : Type) (O : Ops T) (solve : list T -> list T -> option (list T)) (f : family) (alpha tol : T)
+         (w off : option (list T)) (x y : list T) (max_iter : nat) (ft : fitted),
+    fit O solve f alpha tol w off x y max_iter = Some ft ->
+    f_n ft = Z.max 0 (truncZ O (f1 O Round (sum O (weights_of O w (length y))))).
+Proof. exact @fit_stores_n. Qed.
+
+(** the deviance stored by [fit] is sum_i w_i d(y_i, mu_i) at the means the last step started from (w_i = 1 without
+    weights); Poisson's domain condition is discharged: the fitted means are positive, counts need only be >= 0 *)
+Theorem C06_fit_deviance_is_weighted_sum :
+  forall (solve : list R -> list R -> option (list R)) (f : family) (alpha tol : R) (w off : option (list R))
+         (x y : list R) (max_iter : nat) (ft : fitted),
+    fit RO solve f alpha tol w off x y max_iter = Some ft ->
+    (f = Poisson \/ f = QuasiPoisson -> forall i, (i < length y)%nat -> 0 <= nth i y 0) ->
+    exists p q,
+      fit_loop RO solve f alpha tol x y (length y) p (weights_of RO w (length y)) off (max_iter - 1)
+               (initial_coef RO y p) None = Some (f_ok ft, f_coef ft, q) /\
+      length (q_mu q) = length y /\
+      f_dev ft = bigsum (fun i => nth i (weights_of RO w (length y)) 0
+                                  * unit_deviance f (nth i y 0) (nth i (q_mu q) 0)) (length y).
+Proof. exact fit_deviance_is_weighted_sum. Qed.
+
+(** dispersion, covariance, standard errors, AIC, BIC read the stored deviance: for any record whose deviance field
+    holds the weighted deviance D = sum_i w_i d(y_i, mu_i) they are D / (n - p), dispersion x inverse information,
+    its diagonal's square roots, D + 2p, D + p ln n *)
+Theorem C06_inference_uses_weighted_deviance :
+  forall (f : family) (y mu w : list R) (ft : fitted),
+    weighted_deviance RO f y mu w = Some (f_dev ft) -> length w = length y ->
+    (f = Poisson \/ f = QuasiPoisson ->
+       forall i, (i < length y)%nat -> nth i y 0 = 0 \/ (0 < nth i y 0 /\ 0 < nth i mu 0)) ->
+    let D := bigsum (fun i => nth i w 0 * unit_deviance f (nth i y 0) (nth i mu 0)) (length y) in
+    aic RO ft = D + 2 * INR (f_p ft) /\
+    bic RO ft = D + INR (f_p ft) * ln (IZR (f_n ft)) /\
+    (forall d, dispersion RO f ft = Some d ->
+       (has_dispersion f = true -> (Z.of_nat (f_p ft) <= f_n ft)%Z /\ d = D / IZR (f_n ft - Z.of_nat (f_p ft))) /\
+       (has_dispersion f = false -> d = 1)) /\
+    (forall inv c, coef_covariance_matrix RO inv f ft = Some c ->
+       exists disp iv, dispersion RO f ft = Some disp /\ inv (f_info ft) = Some iv /\ c = map (Rmult disp) iv) /\
+    (forall inv se, coef_standard_error RO inv f ft = Some se ->
+       exists c dg, coef_covariance_matrix RO inv f ft = Some c /\ diag RO c = Some dg /\ se = map R_sqrt.sqrt dg).
+Proof. exact inference_uses_weighted_deviance. Qed.
+
+(** ** frequency weights = replicated observations ([replicate k v]: entry i of v repeated k_i times) *)
+
+(** deviance: with integer weights k the weighted deviance IS the family's unweighted deviance of the replicated
+    data at the replicated means (same definedness, same value; no domain condition) *)
+Theorem C06_frequency_weights_deviance :
+  forall (f : family) (k : list nat) (y mu : list R),
+    length y = length k -> length mu = length k ->
+    weighted_deviance RO f y mu (map INR k) = deviance RO f (replicate k y) (replicate k mu).
+Proof. exact frequency_weights_deviance. Qed.
+
+(** the sum of the frequencies is the number of replicated rows (so n = round(sum w) is that number) *)
+Theorem C06_frequency_weights_n :
+  forall (A : Type) (k : list nat) (v : list A),
+    length v = length k -> sum RO (map INR k) = INR (length (replicate k v)).
+Proof. exact @sum_frequency_weights. Qed.
+
+(** dispersion, AIC, BIC: a record holding the weighted deviance and n = sum of the frequencies gives what a record
+    holding the deviance of the replicated data and n = its number of rows gives *)
+Theorem C06_frequency_weights_inference :
+  forall (f : family) (k : list nat) (y mu : list R) (ft ft' : fitted),
+    length y = length k -> length mu = length k ->
+    weighted_deviance RO f y mu (map INR k) = Some (f_dev ft) -> IZR (f_n ft) = sum RO (map INR k) ->
+    deviance RO f (replicate k y) (replicate k mu) = Some (f_dev ft') -> f_n ft' = Z.of_nat (length (replicate k y)) ->
+    f_p ft = f_p ft' ->
+    f_dev ft = f_dev ft' /\ f_n ft = f_n ft' /\
+    dispersion RO f ft = dispersion RO f ft' /\ aic RO ft = aic RO ft' /\ bic RO ft = bic RO ft'.
+Proof. exact frequency_weights_inference. Qed.
+
+(** gradient and information matrix: on the replicated data (row r of [replicate_rows x p k] is row [(rep_index k)_r]
+    of x; unit weights) they are those of the original data with weights k, at the same means; together with
+    C06_frequency_weights_deviance: the Newton system, the deviance and everything derived from them agree, so the
+    penalised score equations and their roots are the same *)
+Theorem C06_frequency_weights_gradient_information :
+  forall (x y mu dmu var : list R) (k : list nat) (n p : nat),
+    (0 < n)%nat -> (0 < p)%nat -> (0 < list_sum k)%nat -> length x = (n * p)%nat ->
+    length y = n -> length mu = n -> length dmu = n -> length var = n -> length k = n ->
+    compute_dbeta RO (replicate_rows x p k) (replicate k y) (replicate k mu) (replicate k dmu) (replicate k var)
+                  (repeat 1 (list_sum k))
+    = compute_dbeta RO x y mu dmu var (map INR k) /\
+    compute_ddbeta RO (replicate_rows x p k) (replicate k dmu) (replicate k var) (repeat 1 (list_sum k))
+    = compute_ddbeta RO x dmu var (map INR k) /\
+    length (replicate_rows x p k) = (list_sum k * p)%nat /\
+    (forall i j, (i < list_sum k)%nat -> (j < p)%nat ->
+       X (replicate_rows x p k) p i j = X x p (nth i (rep_index k) 0%nat) j).
+Proof. exact frequency_weights_gradient_information. Qed.
